@@ -661,6 +661,8 @@ func propC10(c *Ctx) {
 	rg := c.Rule("cache-grow", "VM.Run only appends to an existing module cache (the Eval session installs the modules earlier fragments loaded)", 1)
 	ruleCacheGrow(c, rg, vf)
 
+	rtp := c.Rule("try-end-pop", "a completed try statement leaves no handler behind (an Eval session resets the frame between fragments, a single script does not: with a stale handler the two differ)", 1)
+	ruleTryEndPop(c, rtp)
 	rcr := c.Rule("compile-rollback", "a fragment that fails to compile leaves the session's module store consistent with its constants (rolled back), so the next fragment compiles", 1)
 	ruleCompileRollback(c, rcr, run, compileCall)
 	rsa := c.Rule("save-all-paths", "after the VM run every path of Eval.Run to a return stores r.Locals and r.ModulesCache (also for a failing fragment)", 2)
